@@ -1570,9 +1570,20 @@ def parameter_sweep(chk, rng, pairs: list[dict], thorough: bool, shard=None, onl
         calls = 0
         n_single = len(work)
         work = work + pair_work
+        single_bad: set = set()     # (param, repr(value)) whose use ALONE already deviates / is rejected / was not run
+        single_ok: set = set()
         for wi, (vals, what, prods) in enumerate(work):
             if wi == n_single:
                 calls = max(0, budget_calls - (10 ** 9 if thorough else 10))    # pairs: their own (smaller) budget
+            if "with" in what:
+                # a PAIR is judged only when each of its two parameters, used alone with the same value, agreed
+                # with the library: what deviates alone is already reported once, by the single assignment
+                k1 = (what["with"], what["value"].split(" & ")[1].split("=", 1)[1])
+                k2 = (what["param"], what["value"].split(" & ")[0])
+                if k1 not in single_ok or k2 not in single_ok or k1 in single_bad or k2 in single_bad:
+                    stats["pairs_skipped_single_not_clean"] = stats.get("pairs_skipped_single_not_clean", 0) + 1
+                    continue
+                stats["pairs_judged"] = stats.get("pairs_judged", 0) + 1
             stats["assignments"] += 1
             forms = sweep_forms(p, list(vals), not thorough)
             if "param" in what and not thorough:
@@ -1605,10 +1616,14 @@ def parameter_sweep(chk, rng, pairs: list[dict], thorough: bool, shard=None, onl
                         stats["explicit_rejection"] += 1
                     elif st == "exported" and num == "agree":
                         stats["agree"] += 1
+                        if "param" in what and "with" not in what:
+                            single_ok.add((what["param"], what["value"][:30]))
                     elif st == "exported" and str(num).startswith("skipped"):
                         stats["skipped_numeric"] += 1
                     else:
                         stats["deviations"] += 1
+                        if "param" in what and "with" not in what:
+                            single_bad.add((what["param"], what["value"][:30]))
                         plain_deviates = pr == "id"
                         key = {"target": p["target"], "kind": "meaning", "call_form": form_str(k, kw),
                                "param": what.get("param", ""), "value": what.get("value", ""),
